@@ -23,7 +23,9 @@ CONSTANTS MaxLen,      \* longest element sequence
 
 Mappings  == {"dict", "odict", "mproxy", "cmap"}
 \* ("...child": the class inherits its first fields from a base of the same flavour and declares the rest itself)
-Structs   == {"dc", "dcslots", "plain", "slotsonly", "varsonly", "dcchild", "dcslotschild"}
+\* ("slotsonlychild": a subclass, without __slots__ of its own, of a slots-only class; "slotsonlygrand": a subclass that adds slots;
+\*  "plainchild": annotated fields inherited from a base, and a member of its own whose annotation cannot be evaluated)
+Structs   == {"dc", "dcslots", "plain", "slotsonly", "varsonly", "dcchild", "dcslotschild", "slotsonlychild", "slotsonlygrand", "plainchild"}
 NTs       == {"nt"}
 \* classes for which inspection.issequencetype holds (peeked with next(iter(x), ()))
 SeqLike   == {"list", "tuple", "set", "frozenset", "deque", "str", "bytes"}
